@@ -156,6 +156,56 @@ def raw_cases():
     ]
 
 
+CS_FID = "const_struct_method_and_pointer_routes"
+
+
+def const_struct_cases():
+    """const struct x how it was initialised x where it lives x the route of the store: every store is rejected before anything
+    after "start" is printed (oracle: the property)"""
+    H = ("struct P { int x; int y; };\ninterface Mv { void setx(int v); void incx(); void addx(int v); int getx(); }\n"
+         "impl Mv for P {\n    void setx(int v) { self.x = v; }\n    void incx() { self.x++; }\n    void addx(int v) { self.x += v; }\n"
+         "    int getx() { return self.x; }\n}\nP mk() { P t; t.x = 1; t.y = 2; return t; }\n")
+    inits = [("positional", "{1, 2}"), ("named", "{x: 1, y: 2}"), ("call", "mk()"), ("copy", "SRC")]
+    routes = [("member-assign", "a.x = 9;"), ("member-addassign", "a.x += 1;"), ("member-incr", "a.x++;"),
+              ("method-assign", "a.setx(9);"), ("method-incr", "a.incx();"), ("method-addassign", "a.addx(3);"),
+              ("ptr-to-member", "int* p = &a.x;\n    *p = 9;"), ("ptr-to-struct", "P* p = &a;\n    p->x = 9;"),
+              ("ptr-to-struct-method", "P* p = &a;\n    p->setx(9);"), ("whole-assign", "P b = {3, 4};\n    a = b;")]
+    cases = []
+    for iname, init in inits:
+        for where in ("local", "global", "static"):
+            if (where == "global" and iname in ("call", "copy")) or (where == "static" and iname == "copy"):
+                continue        # global initialisers are literals; a static initialised from a variable is not supported
+            for rname, store in routes:
+                src = "    P src0 = {1, 2};\n" if iname == "copy" else ""
+                ini = init.replace("SRC", "src0")
+                if where == "local":
+                    pre, decl = "", src + "    const P a = %s;\n" % ini
+                elif where == "static":
+                    pre, decl = "", src + "    static const P a = %s;\n" % ini
+                else:
+                    pre, decl = "const P a = %s;\n" % ini, ""
+                prog = H + pre + "int main() {\n" + decl + "    println(\"start\", a.getx());\n    " + store + "\n    println(a.x);\n    println(\"END\");\n    return 0;\n}\n"
+                cs_ = {"id": "cstruct-%s-%s-%s" % (iname, where, rname), "program": prog, "expect_class": "error", "expect_stdout": "start 1\n"}
+                if rname == "method-incr" or (iname in ("call", "copy") and rname in ("method-assign", "method-addassign", "ptr-to-member")):
+                    cs_["finding"] = CS_FID
+                cases.append(cs_)
+    # a mutable struct reached through a pointer to const / a const reference: methods that write are rejected too
+    for rname, store in [("ptrconst-method", "const P* cp = &m;\n    cp->setx(9);"), ("ptrconst-method-incr", "const P* cp = &m;\n    cp->incx();"),
+                         ("constref-method", "wr(m);")]:
+        prog = H + "void wr(const P& r) { r.setx(9); }\nint main() {\n    P m = {1, 2};\n    println(\"start\", m.getx());\n    " + store + "\n    println(m.x);\n    println(\"END\");\n    return 0;\n}\n"
+        cases.append({"id": "cstruct-" + rname, "program": prog, "expect_class": "error", "expect_stdout": "start 1\n",
+                      "finding": CS_FID if rname.startswith("ptrconst") else None})
+    # a member that is a pointer to const; a struct with a const member overwritten as a whole
+    cases.append({"id": "cstruct-member-ptr-to-const", "expect_class": "error", "expect_stdout": "start\n", "finding": CS_FID,
+                  "program": "struct H { const int* p; int k; };\nint main() {\n    int d = 3;\n    H h;\n    h.p = &d;\n    println(\"start\");\n    *h.p = 9;\n    println(d);\n    println(\"END\");\n    return 0;\n}\n"})
+    cases.append({"id": "cstruct-const-member-whole-assign", "expect_class": "error", "expect_stdout": "start 7\n", "finding": CS_FID,
+                  "program": "struct R { const int id; int v; };\nint main() {\n    R r;\n    r.id = 7;\n    r.v = 1;\n    R o;\n    o.id = 8;\n    o.v = 2;\n    println(\"start\", r.id);\n    r = o;\n    println(r.id);\n    println(\"END\");\n    return 0;\n}\n"})
+    # controls: reading through every route is allowed
+    cases.append({"id": "cstruct-read-controls", "expect_class": "ok", "expect_stdout": "1 2 1 1 2\nEND\n",
+                  "program": H + "const P g = {x: 1, y: 2};\nint main() {\n    const P a = {x: 1, y: 2};\n    const P* cp = &a;\n    println(a.x, a.y, a.getx(), g.getx(), cp->y);\n    println(\"END\");\n    return 0;\n}\n"})
+    return cases
+
+
 def main(a):
     c = RefCheck(PID, a, ["CbProofs", "CbProps.C09"], THEOREMS)
     if not c.build():
@@ -177,6 +227,7 @@ def main(a):
     c.suite("matrix", [s for (_, s, _) in cl], nontrivial=lambda r: idx[r.sexp][0], known_cell=known_cell,
             max_report=6, shrink=False)
     c.raw_suite("pointers-and-references", raw_cases())
+    c.raw_suite("const-structs", const_struct_cases(), max_report=6)
     n = 400 if quick else 30000
     rnd = [gen_core.gen_program(a.seed, 91, k, c.gates, size=25, features={"consts": True})[0] for k in range(n)]
     c.suite("random-const-rich", rnd, nontrivial=lambda r: hash(r.sexp) if r.status == "exit1:const" else None)
